@@ -21,6 +21,8 @@ from typing import Callable, Iterable, List, Optional, Tuple
 VERIF = Path(__file__).resolve().parent.parent
 LEAN = VERIF / "lean"
 REPO = Path(os.environ.get("VERIF_REPO", "/repo"))
+# replay/ and evidence/ go under VERIF unless a mutation sweep redirects them (tools/mutation_sweep.py)
+OUT = Path(os.environ.get("VERIF_OUT", str(VERIF)))
 DRV = LEAN / ".lake" / "build" / "bin" / "nrfdrv"
 ALLOWED_AXIOMS = {"propext", "Classical.choice", "Quot.sound"}
 FORBIDDEN = re.compile(
@@ -381,14 +383,14 @@ def load_known(prop: str) -> Tuple[List[dict], List[str]]:
 
 
 def write_replay(prop: str, payload: dict) -> str:
-    d = VERIF / "replay"
-    d.mkdir(exist_ok=True)
+    d = OUT / "replay"
+    d.mkdir(parents=True, exist_ok=True)
     n = 0
     while (d / f"{prop}-{n}.json").exists():
         n += 1
     p = d / f"{prop}-{n}.json"
     p.write_text(json.dumps(payload, indent=1, sort_keys=True))
-    return str(p.relative_to(VERIF))
+    return str(p.relative_to(OUT))
 
 
 def write_evidence(res: Result, a: Audit, checker_cmd: str, rule: str, trusted: List[str],
@@ -420,8 +422,8 @@ def write_evidence(res: Result, a: Audit, checker_cmd: str, rule: str, trusted: 
         "wall_s": round(time.time() - res.t0, 2),
         "violations": nviol,
     }
-    d = VERIF / "evidence"
-    d.mkdir(exist_ok=True)
+    d = OUT / "evidence"
+    d.mkdir(parents=True, exist_ok=True)
     (d / f"{res.prop}.json").write_text(json.dumps(ev, indent=1, sort_keys=True, default=str))
 
 
